@@ -206,6 +206,7 @@ type c07Monitor struct {
 	Pruned    int
 	preRemoving map[int]bool
 	preView     *regView
+	removingUntil map[int]int64 // operator -> dogfood epoch at whose end its opt-out (started while validating) completes
 }
 
 func (m *c07Monitor) Name() string { return "key-registry" }
@@ -303,8 +304,32 @@ func (m *c07Monitor) check(r *Run, ctx sdk.Context, what string) *regView {
 			}
 		}
 	}
-	// removing => no prev/current inconsistency (operator must still have its key until completion)
+	// an opt-out started while validating is pending until the block that closes its epoch
+	cur := r.dogfoodEpoch(ctx)
+	for _, oi := range sortedIntKeysB(m.removingUntil) {
+		until := m.removingUntil[oi]
+		if cur > until {
+			delete(m.removingUntil, oi)
+			continue
+		}
+		if ended, num := r.dogfoodEpochEnded(ctx.BlockHeight()); ended && num >= until {
+			continue // completes in this block's EndBlock
+		}
+		if !v.removing[oi] {
+			r.Violate(m.Name(), "opt-out-of-validating-operator-stays-pending-until-unbonded", what[:strings.IndexAny(what+":", ":")], fmt.Sprintf("%s: operator %d opted out while one of its keys was in the validator set (pending until the end of epoch %d, current epoch %d) but is no longer marked as removing its key: it can set a new key and its undelegations are not held", what, oi, until, cur))
+			return v
+		}
+	}
 	return v
+}
+
+func sortedIntKeysB(m map[int]int64) []int {
+	var ks []int
+	for k := range m {
+		ks = append(ks, k)
+	}
+	sort.Ints(ks)
+	return ks
 }
 
 func sortedIntKeys(m map[int][]byte) []int {
@@ -377,6 +402,16 @@ func (m *c07Monitor) AfterTx(r *Run, ctx sdk.Context, tx *TxResult) {
 				m.owners[string(cur)] = &keyOwner{op: oi, wasActive: was}
 			}
 		case "optout":
+			// an operator that opts out while one of its keys is in the stored validator set keeps
+			// validating until the unbonding epochs end: its removal stays pending until then
+			for _, val := range r.Node.App.StakingKeeper.GetAllExocoreValidators(ctx) {
+				if vo, ok := pre.rev[string(val.Address)]; ok && vo == oi {
+					if m.removingUntil == nil {
+						m.removingUntil = map[int]int64{}
+					}
+					m.removingUntil[oi] = epoch + n
+				}
+			}
 			if cur, ok := pre.cur[oi]; ok {
 				_, act := r.Node.App.StakingKeeper.GetExocoreValidator(ctx, cur)
 				was := act
@@ -440,6 +475,13 @@ func (m *c07Monitor) AfterEndBlock(r *Run, ctx sdk.Context, _ abci.ResponseEndBl
 				_ = guard("probe", func() { val = app.StakingKeeper.ValidatorByConsAddr(ctx, sdk.ConsAddress([]byte(a))) })
 				if val == nil {
 					r.Probe("c07_lookup_present_but_staking_interface_nil")
+					disc := "current-key"
+					if ow.note != "" {
+						disc = ow.note
+					}
+					if r.Violate(m.Name(), "resolvable-key-is-slashable-through-staking-interface", disc, fmt.Sprintf("height %d: consensus address %x of operator %d (release epoch %d, current epoch %d, %s) resolves to its operator but ValidatorByConsAddr returns nothing, so evidence and downtime for it are dropped", h, a, ow.op, ow.releaseEpoch, r.dogfoodEpoch(ctx), ow.note)) {
+						return
+					}
 				}
 			}
 			if !present || j != ow.op {
